@@ -384,6 +384,47 @@ var Mutators = map[string]mutator{
 	"skiNotOctetString": withExt(oidSKI, func(v, e *Node) ([]byte, error) { v.Tag = 0x03; return v.Encode(), nil }),
 	"akiTrailing":       extTrailing(oidAKI),
 	"akiNotSequence":    withExt(oidAKI, func(v, e *Node) ([]byte, error) { v.Tag = 0x31; return v.Encode(), nil }),
+	// ---- degenerate payloads: the right outer type with nothing (or the least possible) inside ----
+	"kuEmptyBits":      extReplace(oidKU, []byte{0x03, 0x01, 0x00}),
+	"kuNineBits":       extReplace(oidKU, []byte{0x03, 0x03, 0x07, 0x00, 0x80}),
+	"kuOneBit":         extReplace(oidKU, []byte{0x03, 0x02, 0x07, 0x80}),
+	"bcEmptySequence":  extReplace(oidBC, []byte{0x30, 0x00}),
+	"ekuEmptySequence": extReplace(oidEKU, []byte{0x30, 0x00}),
+	"polEmptySequence": extReplace(oidPol, []byte{0x30, 0x00}),
+	"polEmptyInfo":     extReplace(oidPol, []byte{0x30, 0x02, 0x30, 0x00}),
+	"skiEmpty":         extReplace(oidSKI, []byte{0x04, 0x00}),
+	"akiEmptySequence": extReplace(oidAKI, []byte{0x30, 0x00}),
+	"akiEmptyKeyId":    extReplace(oidAKI, []byte{0x30, 0x02, 0x80, 0x00}),
+	"aiaEmptyDescription": extReplace(oidAIA, []byte{0x30, 0x02, 0x30, 0x00}),
+	"crldpEmptyPoint":     extReplace(oidCRLDP, []byte{0x30, 0x02, 0x30, 0x00}),
+	"crldpEmptyFullName":  extReplace(oidCRLDP, []byte{0x30, 0x06, 0x30, 0x04, 0xa0, 0x02, 0xa0, 0x00}),
+	"ncEmptySubtrees":     extReplace(oidNC, []byte{0x30, 0x02, 0xa0, 0x00}),
+	"ncEmptySubtree":      extReplace(oidNC, []byte{0x30, 0x04, 0xa0, 0x02, 0x30, 0x00}),
+	"sanEmptyName":        extReplace(oidSAN, []byte{0x30, 0x02, 0x82, 0x00}),
+	"subjectEmptyRDN": func(c *CertTree, r *rand.Rand) ([]byte, error) {
+		n := c.TBS().Kids[tbsSubject]
+		if len(n.Kids) == 0 {
+			return nil, errNA
+		}
+		n.Kids[0] = Cons(0x31)
+		return c.Encode(), nil
+	},
+	"subjectEmptyAttrValue": func(c *CertTree, r *rand.Rand) ([]byte, error) {
+		n := c.TBS().Kids[tbsSubject]
+		if len(n.Kids) == 0 || len(n.Kids[0].Kids) == 0 || len(n.Kids[0].Kids[0].Kids) != 2 {
+			return nil, errNA
+		}
+		n.Kids[0].Kids[0].Kids[1].Content = []byte{}
+		return c.Encode(), nil
+	},
+	"extValueEmpty": func(c *CertTree, r *rand.Rand) ([]byte, error) {
+		l := c.ExtList()
+		if l == nil || len(l.Kids) == 0 {
+			return nil, errNA
+		}
+		SetExtValue(l.Kids[r.Intn(len(l.Kids))], []byte{})
+		return c.Encode(), nil
+	},
 	"unkNonMadeCritical": func(c *CertTree, r *rand.Rand) ([]byte, error) {
 		e := c.Ext(oidContent(oidUnkNon))
 		if e == nil || len(e.Kids) != 2 {
